@@ -177,8 +177,24 @@ def run_case(case, ctx):
             fr[c1] = fr[c1].astype(float)
         pools[c0] = [base + 2 * j for j in range(len(pools[c0]))]
         ctx.cls("int64-ids-above-2**53")
+    catdtype = bool(explicit and not intcat and not numeric_cat and not bigids and case["sub"] % 5 == 0)
+    if catdtype:
+        # columns of pandas' `category` dtype whose declared levels are a superset of what the training frame holds
+        # (a fixed vocabulary, a frame filtered after the conversion): a declared level is not a training category
+        import pandas as _pd
+        for c in cat_cols_all:
+            levels = [v for v in pools[c] if not _missing(v)] + ["declared-never-seen"]
+            if len(set(levels)) != len(levels) or not all(isinstance(v, str) for v in levels):
+                catdtype = False
+                break
+        if catdtype:
+            for c in cat_cols_all:
+                levels = [v for v in pools[c] if not _missing(v)] + ["declared-never-seen"]
+                train[c] = _pd.Categorical(train[c].tolist(), categories=levels)
+                test[c] = _pd.Categorical(test[c].tolist(), categories=levels)
+            ctx.cls("category-dtype-with-unused-levels")
     ctx.cls("missing=" + misskind)
-    cfg = {"missing_as": misskind, "numeric_dtype_categories": numeric_cat, "int64_ids": bigids,
+    cfg = {"missing_as": misskind, "category_dtype": catdtype, "numeric_dtype_categories": numeric_cat, "int64_ids": bigids,
            "ncat": ncat, "nnum": nnum, "rows": nrow, "index": ikind, "single": single, "explicit_columns": explicit,
            "cat_cols": cat_cols, "remove": remove, "int_categories": intcat, "sub": case["sub"]}
     ctx.cls("index=" + ikind)
